@@ -72,7 +72,7 @@ def run(rep, worlds, max_paths=None, maxlen=12, seed=0, procs=16, tlc_kw=None, e
         g = graphs[gk]
         paths, unc = g.cover(maxlen, random.Random(rng.random()), max_paths=max_paths)
         key = (fam, eager, daskin, cn, seed)
-        nprobe = probes if probes is not None else (42 if max_paths is not None else 224)
+        nprobe = probes if probes is not None else (47 if max_paths is not None else 240)
         hist = g.sandwiches(random.Random(rng.random()), nprobe, maxlen)
         paths = list(paths) + hist
         for i, p in enumerate(paths):
